@@ -342,7 +342,27 @@ def r10_5(ctx):
            'self._putlock.clear() on every normal path of a closing pool that has a semaphore')
 
 
+
+def r10_6(ctx):
+    ctx.rule('R10.6', 'slots are handed back wholesale (clear()) only by close(): while the pool runs, an empty job cache '
+                      'does not mean that no slot is held (a submitter holds one before its job is registered)', floor=1)
+    m = ctx.model
+    n_ = 0
+    for qn, fi in sorted(m.funcs.items()):
+        if fi.module.name != 'pool':
+            continue
+        for (n, c) in q.calls(fi, lambda t: t.endswith('_putlock.clear')):
+            n_ += 1
+            owner = fi.qual.split(':')[1]
+            ctx.ob('R10.6', 'clear-called-by:%s' % owner, owner == 'Pool.close', fi, c,
+                   'close() wakes the producers of a pool that takes no more jobs' if owner == 'Pool.close' else
+                   '%s resets the semaphore while the pool runs: a slot that is legitimately held is given to '
+                   'somebody else' % owner)
+    q.need(n_ >= 1, 'nobody clears the put-lock')
+
+
 def run(ctx):
+    r10_6(ctx)
     r10_1(ctx)
     r10_2(ctx)
     r10_3(ctx)
@@ -352,6 +372,8 @@ def run(ctx):
 
 _P = 'billiard/pool.py'
 MUTANTS = [
+    ('supervisor-resyncs-the-semaphore', _P, "        for i in range(len(joined)):\n            if self._putlock is not None:\n                self._putlock.release()\n",
+     "        for i in range(len(joined)):\n            if self._putlock is not None:\n                self._putlock.release()\n        if self._putlock is not None and not self._cache:\n            self._putlock.clear()\n", 'R10.6'),
     ('did_start_ok-drops-the-reaped-workers', 'billiard/pool.py', "        for _ in joined:\n            if self._putlock is not None:\n                self._putlock.release()\n        return not joined\n",
      "        return not joined\n", 'R10.4'),
     ('shrink-reaps-exited-workers-itself', 'billiard/pool.py', "    def shrink(self, n=1):\n        for i, worker in enumerate(self._iterinactive()):\n",
